@@ -104,12 +104,24 @@ structure Req where
   msgs : List (Option Nat)
   deriving DecidableEq, Repr
 
-/-- one topic/partition of a batch: `deferredsByTopicPart[tp]` (= the sends whose messages, in this
-    order, are `payloadsByTopicPart[tp].messages`) -/
+/-- one message of a produce payload: the key of the `send_messages` call it came from, and its value (`none`: a
+    null message; the number stands for the value - its size is what the byte counter sees) -/
+structure Msg where
+  key : Option (List UInt8)
+  value : Option Nat
+  deriving DecidableEq, Repr
+
+/-- one topic/partition of a batch: `deferredsByTopicPart[tp]` (the sends riding on it, in order) and
+    `payloadsByTopicPart[tp].messages` (their messages, in that order) -/
 structure Payload where
   tp : TP
   sids : List Sid
+  /-- `payloadsByTopicPart[tp].messages`: what `create_message_set(reqs)` is given, message by message -/
+  msgs : List Msg := []
   deriving DecidableEq, Repr
+
+/-- the messages of a send as they go into a payload: each value with the call's key -/
+def Req.wire (r : Req) : List Msg := r.msgs.map (fun v => ⟨r.key, v⟩)
 
 inductive LRes
   | part (p : Int)
@@ -307,9 +319,10 @@ def Batch.payloadsFor (b : Batch) (tps : List TP) : List Payload :=
 
 /-! ## `_send_requests` -/
 
-def addToGroups (gs : List Payload) (tp : TP) (sid : Sid) : List Payload :=
-  if gs.any (·.tp = tp) then gs.map (fun g => if g.tp = tp then { g with sids := g.sids ++ [sid] } else g)
-  else gs ++ [{ tp := tp, sids := [sid] }]
+def addToGroups (gs : List Payload) (tp : TP) (sid : Sid) (ms : List Msg) : List Payload :=
+  if gs.any (·.tp = tp) then
+    gs.map (fun g => if g.tp = tp then { g with sids := g.sids ++ [sid], msgs := g.msgs ++ ms } else g)
+  else gs ++ [{ tp := tp, sids := [sid], msgs := ms }]
 
 /-- the loop over `zip(parts_results, requests)`: skip called ones, errback failed look-ups, group the rest -/
 def procResults : List Lookup → List Sid → List Payload → List Sid × List Payload × List Ob
@@ -317,7 +330,7 @@ def procResults : List Lookup → List Sid → List Payload → List Sid × List
   | l :: rest, out, gs =>
     if l.req.sid ∈ out then
       match l.pc with
-      | .done (.part p) => procResults rest out (addToGroups gs ⟨l.req.topic, p⟩ l.req.sid)
+      | .done (.part p) => procResults rest out (addToGroups gs ⟨l.req.topic, p⟩ l.req.sid l.req.wire)
       | .done (.fail k) =>
         let (o, g, obs) := procResults rest (out.erase l.req.sid) gs
         (o, g, .fire l.req.sid (.err k) :: obs)
@@ -426,7 +439,8 @@ def handleResults (cfg : Cfg) (st : St) (b : Batch) (rs : List Resp) (fs : List 
   let failed := fs ++ (rs.filter (·.error ≠ 0)).map (fun r => ⟨r.tp, .broker r.error, false⟩)
   let good := rs.filter (·.error = 0)
   let (out, obs) := deliverMany st.outstanding (good.map (fun r => (b.sidsOf r.tp, .ok r)))
-  let b' := { b with live := b.live.filter (fun tp => !good.any (·.tp = tp)) }
+  -- only what failed stays listed for a retry (F17, F30)
+  let b' := { b with live := b.live.filter (fun tp => failed.any (·.tp = tp)) }
   let st1 := { st with outstanding := out }
   if failed.isEmpty then (st1, obs, true)
   else
@@ -597,8 +611,10 @@ def doSend (cfg : Cfg) (st : St) (sid : Sid) (topic : Topic) (key : Option (List
 def step (cfg : Cfg) (st : St) : Ev → St × List Ob
   | .send sid topic key msgs =>
     if sid ≠ st.nextSid then (st, [.badOp])
-    else if msgs.isEmpty then
-      ({ st with nextSid := st.nextSid + 1 }, [.fire sid (.err (.other 4))])     -- ValueError
+    else if msgs.isEmpty || st.stopping then
+      -- refused: no messages (ValueError), or `stop()` has begun - nothing would ever fire the request (F29)
+      ({ st with nextSid := st.nextSid + 1 },
+        [.fire sid (.err (if msgs.isEmpty then .other 4 else .acancelled (some false)))])
     else doSend cfg st sid topic key msgs
   | .cancel sid =>
     if sid < st.nextSid then cancelSend st sid else (st, [.badOp])
